@@ -109,6 +109,7 @@ struct net : public verif::listener
     std::map<std::string, std::vector<std::string>> odoms;
     std::ostringstream out;
     bool first_ev = true;
+    bool dead = false;
     size_t n_lra = 0;
 
     net() : sat(), lra(sat), idl(sat), rdl(sat), ov(sat)
@@ -313,6 +314,11 @@ struct net : public verif::listener
         const std::string &op = t[0];
         std::string res = "null";
         ev("{\"call\":" + std::to_string(idx) + ",\"op\":\"" + op + "\"}");
+        if (dead && op != "obs")
+        { // the network already reported a root-level inconsistency: using it further would violate the API's preconditions
+            ev("{\"ret\":" + std::to_string(idx) + ",\"res\":\"skip-dead\"}");
+            return;
+        }
         auto reg = [&](const std::string &name, const lit &p)
         {
             lits[name] = p;
@@ -513,6 +519,8 @@ struct net : public verif::listener
         else
             res = "\"unknown-op\"";
 
+        if (res == "false" && sat.root_level() && (op == "clause" || op == "propagate" || op == "simplify" || op == "assume"))
+            dead = true;
         // keep our count of propositional variables in sync (reified constructs create internal ones)
         for (const auto &[n, p] : lits)
             sync_sat(p);
